@@ -85,7 +85,7 @@ class async_wrapper(wrapper):
     >>> assert await async_f(2) == 6
     
     """
-    async def __call__(self, *args, **kwargs):
+    async def __call__(self, /, *args, **kwargs):
         if self.function is None and len(args) == 1 and len(kwargs) == 0:
             return await type(self)(function = args[0], **self._kwargs)
         else:
